@@ -218,6 +218,9 @@ class Prog:
 # ---------------------------------------------------------------------------------------------- generator
 TYPES_SIMPLE = ["int", "char", "long", "short", "float", "double", "unsigned int", "unsigned char", "long long",
                 "size_t"]
+# return types of prototypes: one to four words, lengths on both sides of every tab stop
+PROTO_TYPES = TYPES_SIMPLE + ["unsigned long", "unsigned long long", "const char", "const unsigned char", "const unsigned int",
+                              "const long long", "unsigned short", "const unsigned short", "const int", "const unsigned long long"]
 
 
 class Gen:
@@ -621,6 +624,31 @@ class Gen:
             for (t, st, g, init), nt in zip(rows, tabs):
                 lines.append(Line([t, "\t" * nt, st, g] + init + [";"], "global"))
             lines.append(Line([""], "blank"))
+        nproto = r.choice([0, 0, 1, 2, 3])
+        if nproto:
+            rows = []
+            for _ in range(nproto):
+                st = "static " if r.random() < 0.6 else ""
+                void = r.random() < 0.2
+                t = st + ("void" if void else r.choice(PROTO_TYPES))
+                star = "" if void or r.random() < 0.6 else "*"
+                np_ = r.randint(0, 3)
+                ps = [(r.choice(TYPES_SIMPLE) + " " + r.choice(["", "", "*"]), self.ident("param")) for _ in range(np_)]
+                rows.append((t, star, self.fname(), ps))
+            tabs = self.align([(t, None) for t, _, _, _ in rows], 0)
+            for (t, star, f, ps), nt in zip(rows, tabs):
+                parts = [t, "\t" * nt, star, f, "("]
+                if not ps:
+                    parts.append("void")
+                for i, (pt, pp) in enumerate(ps):
+                    if i:
+                        parts.append(", ")
+                    parts += [pt, pp]
+                parts.append(");")
+                if width("".join(x if isinstance(x, str) else x.default for x in parts)) > 80:
+                    parts = [t, "\t" * nt, star, f, "(void);"]
+                lines.append(Line(parts, "proto"))
+            lines.append(Line([""], "blank"))
         nf = r.randint(1, self.max_funcs)
         funcs = []
         fields = []
@@ -692,7 +720,7 @@ class Gen:
         rows = []
         for _ in range(nproto):
             void = r.random() < 0.3
-            t = "void" if void else r.choice(TYPES_SIMPLE + user_types)
+            t = "void" if void else r.choice(PROTO_TYPES + user_types)
             st = "" if void or r.random() < 0.6 else "*"
             f = self.fname()
             np_ = r.randint(0, 4)
